@@ -1049,6 +1049,23 @@ func (e *Exec) typeAssert(st *State, x *ssa.TypeAssert) {
 		res = e.sc.unbox(at, "(i-pay "+v.S+")")
 	}
 	okN := e.sc.define(x.Name()+".ok", "Bool", okTerm)
+	// destination pointers handed in by the application are non-nil
+	// (contract flag `nonnil_payload <param>`; an assumption about the caller, not about network input)
+	if _, isPtr := at.Underlying().(*types.Pointer); isPtr {
+		if prm, ok := x.X.(*ssa.Parameter); ok {
+			fc := e.fc
+			if e.curFn != e.fn {
+				fc = e.eng.contractFor(e.curFn)
+			}
+			if fc != nil {
+				for _, cl := range fc.Lists["nonnil_payload"] {
+					if strings.TrimSpace(cl.Expr) == prm.Name() {
+						e.assume(st, imp(okN, fmt.Sprintf("(not (= %s 0))", res)))
+					}
+				}
+			}
+		}
+	}
 	if x.CommaOk {
 		rv := Val{T: at, S: e.sc.define(x.Name(), e.sc.sortOf(at), ite(okN, res, e.sc.zero(at)))}
 		e.assumeWF(st, rv)
